@@ -41,10 +41,14 @@ def warm_cache(env):
     t0 = time.time()
     base = os.path.dirname(cdir)
     os.makedirs(base, exist_ok=True)
-    # drop caches of other (older) trees: disk is limited
+    # drop caches of other trees once they are stale (disk is limited); recent ones may belong to a concurrently running check
     for d in os.listdir(base):
         p = os.path.join(base, d)
-        if p != cdir:
+        try:
+            stale = (time.time() - os.path.getmtime(p)) > 3 * 3600
+        except OSError:
+            stale = False
+        if p != cdir and stale:
             shutil.rmtree(p, ignore_errors=True)
     os.makedirs(cdir, exist_ok=True)
     n = 16
